@@ -15,6 +15,7 @@ takes the pair on trust).  At each site the pair (seconds, nanoseconds) must be 
 
 otherwise the site needs a reviewed reason (reviewed/signpair.tsv).  No jiff code is run.
 """
+import re
 from . import mir
 from .absint import Analyzer, AV
 from .term import Terms, walk
@@ -113,8 +114,14 @@ def _sig(t, depth=0):
         name = path.rsplit("::", 1)[-1]
         if path.endswith("Default>::default") or path.endswith("Default::default"):
             return ("zero",)
-        if name in ("abs", "unsigned_abs") and len(args) == 1:
+        if name in ("unsigned_abs", "checked_abs") and len(args) == 1:
             return ("nonneg",)
+        if name == "abs" and len(args) == 1:
+            # iN::abs wraps to iN::MIN in builds without overflow checks (it inherits the caller's setting), so it
+            # is non-negative only for narrower sources (an i32 widened to i64, a ranged value)
+            a0 = args[0]
+            widened = a0[0] == "cast" or "rangeint" in path or not re.search(r"<impl i\d+>::abs$", path)
+            return ("nonneg",) if widened else None
         if name in ("checked_neg", "neg", "wrapping_neg") and len(args) == 1:
             return _flip(_sig(args[0], depth + 1))
         if name in GETTERS and len(args) == 1:
@@ -554,3 +561,65 @@ def _root(t):
         else:
             break
     return t
+
+
+# ------------------------------------------------------------------------------------------------------------------
+CHECKED_CONV = ("::try_rfrom", "::try_new", "::try_new128", "::try_from", "::try_rinto", "::try_into", "::checked_add", "::checked_sub")
+
+
+def _euclid_parts(t, depth=0):
+    """(dividend, divisor, 'q'|'r', passed_checked_conversion) if the term is the quotient/remainder of the ranged integers'
+    `/` or `%` operator (Euclidean: the remainder is never negative), possibly wrapped in conversions"""
+    checked = False
+    for _ in range(12):
+        if t[0] in ("cast", "try", "variant"):
+            t = t[1]
+        elif t[0] == "field" and t[2] in ("0", "val"):
+            t = t[1]
+        elif t[0] == "call" and t[1].endswith(("::unwrap", "::expect", "::get", "::rinto", "::rfrom", "::from", "::into")) and t[2]:
+            t = t[2][0]
+        elif t[0] == "call" and t[1].endswith(CHECKED_CONV) and t[2]:
+            checked = True
+            t = t[2][-1]
+        else:
+            break
+    if t[0] == "call" and "util::rangeint::ri" in t[1] and len(t[2]) == 2:
+        if re.search(r" as core::ops::Div(<.*>)?>::div$", t[1]):
+            return (t[2][0], t[2][1], "q", checked)
+        if re.search(r" as core::ops::Rem(<.*>)?>::rem$", t[1]):
+            return (t[2][0], t[2][1], "r", checked)
+    return None
+
+
+def run_truncsplit(ctx, rep, cfg="Q", rule="TRUNC-SPLIT", floor=2):
+    """SignedDuration keeps seconds and nanoseconds of one sign; the ranged integers' `/` and `%` are Euclidean"""
+    rep.rule(rule, "where SignedDuration::new(secs, nanos) receives quotient and remainder of one nanosecond count computed with the "
+                   "ranged integers' Euclidean `/` and `%` (remainder never negative), the quotient has not been range-checked on the "
+                   "way: for a negative count with a fraction the Euclidean quotient is one below the seconds of the value, so a check "
+                   "of it rejects values down to one second above the minimum that the normalising constructor would have accepted "
+                   "(e.g. SignedDuration::MIN itself); truncating div_ceil/rem_ceil splits are always fine")
+    prog = ctx.prog(cfg)
+    n = 0
+    for f in sorted(prog.fns.values(), key=lambda f: f.key):
+        if f.crate != "jiff":
+            continue
+        calls = [(bi, t) for bi, t in mir.iter_calls(f) if t.get("path") == "signed_duration::SignedDuration::new" and len(t.get("args", [])) == 2]
+        if not calls:
+            continue
+        T = Terms(f)
+        ords = 0
+        for bi, t in calls:
+            q, r = _euclid_parts(T.at_call(bi, t, 0)), _euclid_parts(T.at_call(bi, t, 1))
+            if not (q and r and q[2] == "q" and r[2] == "r" and q[0] == r[0] and q[1] == r[1]):
+                continue
+            n += 1
+            ords += 1
+            key = norm_key("%s | euclid-split#%d" % (f.key, ords))
+            loc = "%s:%s" % (t["span"]["file"], t["span"]["line"])
+            if q[3]:
+                rep.violation(rule, key, "the Euclidean quotient of the nanosecond count is range-checked before SignedDuration::new "
+                              "normalises the pair: a representable negative value with a fraction whose seconds are the minimum is "
+                              "rejected (its floor is minimum - 1)", loc)
+            else:
+                rep.ok(rule, key, how="Euclidean split handed to the normalising constructor unchecked", loc=loc)
+    rep.floor(rule + " sites", n, floor)
